@@ -195,10 +195,20 @@ fn translate_head(
             ),
             Some(v) => Ok(Rc::new(v.with_loc(l.clone()))),
         },
-        SExp::Integer(l, i) => match prim_map.get(&u8_from_number(i.clone())) {
-            None => Ok(sexp.clone()),
-            Some(v) => Ok(Rc::new(v.with_loc(l.clone()))),
-        },
+        SExp::Integer(l, i) => {
+            // An integer that is itself an opcode denotes that operator even when
+            // its byte spelling is another operator's name (61 is "=", 62 is ">").
+            let is_opcode = prim_map
+                .values()
+                .any(|p| matches!(p.borrow(), SExp::Integer(_, v) if v == i));
+            if is_opcode {
+                return Ok(sexp.clone());
+            }
+            match prim_map.get(&u8_from_number(i.clone())) {
+                None => Ok(sexp.clone()),
+                Some(v) => Ok(Rc::new(v.with_loc(l.clone()))),
+            }
+        }
         SExp::Cons(_l, _a, nil) => match nil.borrow() {
             SExp::Nil(_l1) => run(
                 allocator,
